@@ -11,7 +11,7 @@ import time
 
 PROP = "C02"
 PAIRS = [("sqlite", "duckdb"), ("duckdb", "sqlite"), ("sqlite", "sqlite"), ("duckdb", "duckdb")]
-SEM = {"sqlite": {"bool_is_int": True}, "duckdb": {"bool_is_int": True}}  # values compared as integers (TRUE = 1) on both sides
+SEM = {"sqlite": {"bool_is_int": True, "dup_first": True}, "duckdb": {"bool_is_int": True}}  # values compared as integers (TRUE = 1) on both sides
 
 
 def run_engine(engine: str, sql: str, data: dict):
